@@ -156,7 +156,8 @@ func (p *Pool) Start() {
 
 // Stop worker. Wait all task done.
 func (p *Pool) Stop() {
-	if atomic.CompareAndSwapUint32(&p.state, 1, 2) || atomic.CompareAndSwapUint32(&p.state, 0, 2) {
+	// not-started first: the state only moves 0 -> 1 -> 2, so a concurrent Start cannot slip between the two attempts
+	if atomic.CompareAndSwapUint32(&p.state, 0, 2) || atomic.CompareAndSwapUint32(&p.state, 1, 2) {
 		// cancel context
 		p.cancel()
 
